@@ -74,3 +74,83 @@ func init() {
 		Outside: []string{"panics inside logging / String()", "paho's decoding of hostile broker bytes", "races between two goroutines that need pre-emption inside a handler step (L3)", "memory exhaustion"},
 	})
 }
+
+// shapes of 1..maxLevels levels with level lengths 0..2
+func c27Shapes(maxLevels int64) [][2]int64 {
+	var out [][2]int64
+	pow := int64(1)
+	for n := int64(1); n <= maxLevels; n++ {
+		pow *= 3
+		for s := int64(0); s < pow; s++ {
+			out = append(out, [2]int64{n, s})
+		}
+	}
+	return out
+}
+
+func c27Insts(full bool) []Inst {
+	var out []Inst
+	ml := int64(2)
+	if full {
+		ml = 3
+	}
+	sh := c27Shapes(ml)
+	for _, f := range sh {
+		for _, t := range sh {
+			out = append(out, inst("client", "VH_C27_match", f[0], f[1], t[0], t[1]))
+		}
+	}
+	// dispatch: a selection of filter/topic shapes (levels of 1 byte)
+	one := func(n int64) int64 { return map[int64]int64{1: 1, 2: 4, 3: 13}[n] }
+	for _, fa := range []int64{1, 2} {
+		for _, fb := range []int64{1, 2} {
+			for _, tn := range []int64{2, 3} {
+				for mode := int64(0); mode <= 3; mode++ {
+					out = append(out, Inst{Pkg: "client", Fn: "VH_C27_dispatch", Args: []int64{fa, one(fa), fb, one(fb), tn, one(tn), mode}, LoopBound: 400})
+				}
+			}
+		}
+	}
+	return out
+}
+
+func init() {
+	reg(&Spec{
+		ID: "C27", Pkgs: []string{"client"}, LoopBound: 400,
+		Quick: func() []Inst { return c27Insts(false) }, Thor: func() []Inst { return c27Insts(true) },
+		Asserts: []string{"C27.match_agrees_with_reference", "C27.at_most_one_callback", "C27.invoked_filter_matches", "C27.matching_subscription_is_invoked", "C27.qos2_not_before_pubrel"},
+		Reach:   []string{"C27.matching_pair", "C27.non_matching_pair", "C27.delivered", "C27.not_delivered"},
+		Bounds: map[string]string{
+			"matcher":  "real strings.Split + match against a reference matcher written from MQTT 3.1.1 section 4.7, for every valid filter and every topic name of 1..2 levels (thorough 1..3) whose level strings have 0..2 symbolic bytes (any byte but '/'; empty levels, trailing '/', '#' at parent level included)",
+			"dispatch": "two subscriptions completed through the real Subscribe/SUBACK code (filters of 1..2 one-byte levels, symbolic), optionally Unsubscribe + UNSUBACK of the first, then REGISTER + PUBLISH (QoS 0 / 1 / 2 + PUBREL; also with the Unsubscribe completing between the QoS 2 PUBLISH and its PUBREL) on a topic of 2..3 levels through the real receive loop; callbacks are distinct counters; sync.Map iteration order nondeterministic",
+		},
+		Outside: []string{"'$'-topics (not named by the property)", "more than two subscriptions", "levels longer than 2 bytes"},
+	})
+}
+
+func c17Insts(maxrc int64) []Inst {
+	var out []Inst
+	for rc := int64(0); rc <= maxrc; rc++ {
+		out = append(out, Inst{Pkg: "client", Fn: "VH_C17_publish", Args: []int64{1, rc}, LoopBound: 400}, Inst{Pkg: "client", Fn: "VH_C17_publish", Args: []int64{2, rc}, LoopBound: 400},
+			Inst{Pkg: "client", Fn: "VH_C17_subscribe", Args: []int64{rc}, LoopBound: 400})
+	}
+	out = append(out, Inst{Pkg: "client", Fn: "VH_C17_pubrel", Args: []int64{1}, LoopBound: 400}, Inst{Pkg: "client", Fn: "VH_C17_pubrel", Args: []int64{2}, LoopBound: 400})
+	return out
+}
+
+func init() {
+	reg(&Spec{
+		ID: "C17", Pkgs: []string{"client"}, LoopBound: 400, ValidateN: 6,
+		Quick: func() []Inst { return c17Insts(1) }, Thor: func() []Inst { return c17Insts(2) },
+		Asserts: []string{"C17.publish_sent", "C17.first_publish_not_dup", "C17.one_retransmission_per_timeout", "C17.retransmission_same_id", "C17.retransmission_has_dup", "C17.retransmission_same_content",
+			"C17.no_retransmission_beyond_budget", "C17.pubrec_answered_with_pubrel", "C17.pubrel_same_id", "C17.publish_returns", "C17.nil_iff_acknowledged", "C17.subscribe_fails_after_budget",
+			"C17.publish_qos2_gets_pubrec", "C17.pubrel_answered", "C17.repeated_pubrel_answered"},
+		Reach: []string{"C17.retransmission", "C17.acked", "C17.not_acked", "C17.repeated_pubrel"},
+		Bounds: map[string]string{
+			"publish":   "Client.Publish QoS 1 and 2 on a short topic, 2 symbolic payload bytes, RetryCount 0..1 (thorough 0..2), RetryDelay symbolic; for each datagram the gateway answers once, answers twice, or stays silent until the retry timer fires (symbolic choice per step, up to 2*(RetryCount+2) steps)",
+			"subscribe": "Subscribe with a silent gateway: RetryCount retransmissions then failure",
+			"pubrel":    "incoming QoS 2 PUBLISH, then 2..3 PUBRELs with the same message ID (symbolic)",
+		},
+		Outside: []string{"register / unsubscribe flows (no DUP flag in those packets)", "real-time slack"},
+	})
+}
